@@ -12,18 +12,21 @@ Inductive cval : Type :=
 | CStr (s : string)                       (* Go string: registered, concatStrings *)
 | CNum (k : N) (z : Z)                    (* useLast kinds: k = 0 int, 1 int64, 2 bool, 3 float64 *)
 | CNil                                    (* nil interface value under a map key *)
-| COther (tag : N) (payload : N)          (* unregistered comparable struct type [tag]; zero iff payload = 0 *)
-| CMap (m : list (string * cval)).        (* map[string]any; key order is not observable *)
+| COther (tag : N) (payload : N)          (* unregistered type [tag] (structs S0/S1, named string, named int,
+                                             pointers *S0/*S1 ...); the zero value of the type iff payload = 0 *)
+| CMap (mt : N) (m : list (string * cval)).
+                                          (* a Go map with string keys; mt = 0: map[string]any, mt = 1: map[string]string
+                                             (then every value is a CStr); key order is not observable *)
 
 (* dynamic Go type, [None] for a nil interface *)
-Inductive cty : Type := TStr | TNum (k : N) | TOther (tag : N) | TMap.
+Inductive cty : Type := TStr | TNum (k : N) | TOther (tag : N) | TMap (mt : N).
 
 Definition cty_eqb (a b : cty) : bool :=
   match a, b with
   | TStr, TStr => true
   | TNum k, TNum k' => N.eqb k k'
   | TOther t, TOther t' => N.eqb t t'
-  | TMap, TMap => true
+  | TMap m, TMap m' => N.eqb m m'
   | _, _ => false
   end.
 
@@ -33,7 +36,7 @@ Definition dyn_ty (v : cval) : option cty :=
   | CNum k _ => Some (TNum k)
   | CNil => None
   | COther t _ => Some (TOther t)
-  | CMap _ => Some TMap
+  | CMap mt _ => Some (TMap mt)
   end.
 
 Definition is_nil (v : cval) : bool := match v with CNil => true | _ => false end.
@@ -45,7 +48,7 @@ Definition is_zero (v : cval) : bool :=
   | CNum _ z => Z.eqb z 0
   | CNil => true
   | COther _ p => N.eqb p 0
-  | CMap _ => false                       (* a non-nil map value is never the zero Value *)
+  | CMap _ _ => false                     (* a non-nil map value is never the zero Value *)
   end.
 
 Definition E_TYPE : N := 1%N.       (* toSliceValue: element types differ *)
@@ -71,7 +74,7 @@ Definition same_types (t : cty) (vs : list cval) : bool :=
 Definition strs (vs : list cval) : list string :=
   flat_map (fun v => match v with CStr s => [s] | _ => [] end) vs.
 Definition maps (vs : list cval) : list (list (string * cval)) :=
-  flat_map (fun v => match v with CMap m => [m] | _ => [] end) vs.
+  flat_map (fun v => match v with CMap _ m => [m] | _ => [] end) vs.
 
 (* the "all zero => zero, exactly one non-zero => it, otherwise error" rule *)
 Definition single_nonzero (zero : cval) (vs : list cval) : res cval :=
@@ -89,7 +92,7 @@ Section WithFuel.
   (* concatSliceValue / concatMaps dispatch on a non-empty, type-homogeneous list *)
   Definition concat_typed (t : cty) (vs : list cval) : res cval :=
     match t with
-    | TMap => res_map CMap (concat_maps_f (maps vs))        (* even for a single map: concatMaps re-walks it *)
+    | TMap mt => res_map (CMap mt) (concat_maps_f (maps vs))  (* even for a single map: concatMaps re-walks it *)
     | _ =>
       match vs with
       | [v] => Ok v                                           (* val.Len() == 1 *)
@@ -98,7 +101,7 @@ Section WithFuel.
         | TStr => Ok (CStr (concat_strings (strs vs)))
         | TNum _ => Ok (last vs CNil)
         | TOther tag => single_nonzero (COther tag 0) vs
-        | TMap => Err 0%N
+        | TMap _ => Err 0%N
         end
       end
     end.
@@ -126,14 +129,14 @@ Fixpoint concat_maps (fuel : nat) (ms : list (list (string * cval))) : res (list
 
 Fixpoint depth (v : cval) : nat :=
   match v with
-  | CMap m => S (fold_right (fun kv d => Nat.max (depth (snd kv)) d) O m)
+  | CMap _ m => S (fold_right (fun kv d => Nat.max (depth (snd kv)) d) O m)
   | _ => O
   end.
 Definition depth_list (vs : list cval) : nat := fold_right (fun v d => Nat.max (depth v) d) O vs.
 
 (* concatMaps on a list of maps with enough fuel for their nesting depth
    (ConcatItems[map[string]any] for any number of items, e.g. the Extra maps of messages) *)
-Definition dmaps (ms : list (list (string * cval))) : nat := depth_list (map CMap ms).
+Definition dmaps (ms : list (list (string * cval))) : nat := depth_list (map (CMap 0) ms).
 Definition concat_maps_top (ms : list (list (string * cval))) : res (list (string * cval)) :=
   concat_maps (S (dmaps ms)) ms.
 
@@ -145,7 +148,7 @@ Definition concat_items (vs : list cval) : res cval :=
   | v0 :: _ =>
     match dyn_ty v0 with
     | None => Panic
-    | Some TMap => res_map CMap (concat_maps (S (depth_list vs)) (maps vs))
+    | Some (TMap mt) => res_map (CMap mt) (concat_maps (S (depth_list vs)) (maps vs))
     | Some t => concat_typed (fun _ => Err 0%N) t vs
     end
   end.
